@@ -284,15 +284,20 @@ func TestC16L2(t *testing.T) {
 				}
 			}
 		})
-		// close the block: genesis is exported between blocks
-		updates, err := l2.EndBlock()
-		if err != nil {
-			fail("EndBlock: %v", err)
+		// usually genesis is exported between blocks; a state in the middle of a block (validators marked for
+		// removal but still bonded) is reachable too
+		if midBlock := rapid.IntRange(0, 3).Draw(rt, "midBlockExport") == 0; !midBlock {
+			updates, err := l2.EndBlock()
+			if err != nil {
+				fail("EndBlock: %v", err)
+			}
+			if err := l2.ApplyUpdates(updates); err != nil {
+				fail("engine rejects updates: %v", err)
+			}
+			l2.NextBlock(5 * time.Second)
+		} else {
+			c.Class("L2/export-in-the-middle-of-a-block")
 		}
-		if err := l2.ApplyUpdates(updates); err != nil {
-			fail("engine rejects updates: %v", err)
-		}
-		l2.NextBlock(5 * time.Second)
 
 		g1 := l2.K.ExportGenesis(l2.Ctx)
 		if err := opchildtypes.ValidateGenesis(g1, l2.AK.AddressCodec()); err != nil {
